@@ -153,6 +153,30 @@ def run(chk):
         chk.ob("R4", cache, rs, label, any(covers(g, req) for g in guards), f"no guard covers {label}: {why}")
     cg = [g for g in guards if "CONST" in g.atoms and g.verbs and "Join" in g.verbs]
     chk.ob("R4", cache, rs, "CONST x Join(left/full)", bool(cg), "outer joins with a constant column (it must become NULL for unmatched rows) are no longer guarded")
+    # value level (A9): the guard must fire exactly for the null-padded side(s): both inputs of a full join, the right
+    # input of a left join.  `node.child not in self.derived_from` tells the right input apart.
+    subj_g = rs.args.args[1].arg
+    for how, is_right, want in (("inner", False, False), ("inner", True, False), ("left", False, False), ("left", True, True), ("full", False, True), ("full", True, True)):
+        fires = False
+        for g in cg:
+            ev = Evaluator({f"{subj_g}.how": how, f"{subj_g}.child": "CHILD", "self.derived_from": [] if is_right else ["CHILD"]})
+            ev.lenient = True
+            verdict = True
+            for t, pol_ in g.tests:
+                if isinstance(t, ast.Call) and dotted(t.func) == "isinstance":
+                    continue
+                try:
+                    v = ev.ev(t, dict(ev.binding))
+                except Unsupported:
+                    continue
+                if isinstance(v, Sym):
+                    continue  # depends on the columns: assume a constant column exists
+                if bool(v) != pol_:
+                    verdict = False
+            fires = fires or verdict
+        chk.ob("R4", cache, rs, f"CONST x Join how={how}, {'right' if is_right else 'left'} input: guard fires = {want}", fires == want,
+               f"for how='{how}' and a constant column in the {'right' if is_right else 'left'} input the guard {'does not fire' if want else 'fires'}: "
+               + ("the constant is inlined as a literal in the outer SELECT and stays non-NULL for unmatched rows" if want else "a join that needs no subquery is refused"))  # fmt: skip
     # both inputs are checked
     cs = [c for c in calls_in(join) if dotted(c.func) == "check_subquery"]
     chk.ob("R4", vb, join, "join runs check_subquery for the left and (is_right=True) the right input", len(cs) == 2 and sum(kwarg(c, "is_right") is not None for c in cs) == 1,
